@@ -315,6 +315,16 @@ theorem E_other_basis (A1 A2 : V3 K) (h : V3.cross A1 A2 ≠ v3zero) (m11 m12 m2
   rw [e]
   exact (a12_pos_inverse A1 A2 h).1 _
 
+/-- with the `a1vect=` / `a2vect=` keywords the three kinds of query stay interchangeable: the Cartesian position of
+    the fractional point `(a1, a2)` of the OTHER basis, queried by `pos=` with the same keywords, is reduced to the same
+    own coordinates as the fractional query — `(a1 m11 + a2 m21, a1 m12 + a2 m22)` for a basis of the same plane. -/
+theorem E_interchangeable_other (A1 A2 : V3 K) (h : V3.cross A1 A2 ≠ v3zero) (m11 m12 m21 m22 nn nx ny nz : K) (a : K × K) :
+    let B1 := V3.smul m11 A1 + V3.smul m12 A2
+    let B2 := V3.smul m21 A1 + V3.smul m22 A2
+    (Query.pos (a12ToPos B1 B2 a)).toA12Other? A1 A2 B1 B2 nn nx ny nz = (Query.a12 a).toA12Other? A1 A2 B1 B2 nn nx ny nz ∧
+    (Query.a12 a).toA12Other? A1 A2 B1 B2 nn nx ny nz = some (a.1 * m11 + a.2 * m21, a.1 * m12 + a.2 * m22) :=
+  ⟨rfl, E_other_basis A1 A2 h m11 m12 m21 m22 a⟩
+
 /-- data-model round trip: writing the record with unit factors and reading it back is the identity. -/
 theorem model_roundtrip (ue ul : K) (hue : ue ≠ 0) (hul : ul ≠ 0) (g : GsfRecord K) :
     ofModel ue ul (toModel ue ul g) = g := by
